@@ -16,6 +16,7 @@ import (
 	"sort"
 	"strings"
 	"sync"
+	"sync/atomic"
 	"time"
 
 	"github.com/pion/rtp"
@@ -286,6 +287,8 @@ type Result struct {
 	// (no barrier) that the reader never got; UndrainedTotal is how many were at stake. Report only.
 	UndrainedLost  int `json:"undrained_lost"`
 	UndrainedTotal int `json:"undrained_total"`
+	// RelayTimeouts counts waits for the publisher's packets to reach the stream that hit the hang limit.
+	RelayTimeouts int `json:"relay_sync_timeouts"`
 	// TunnelRetries counts HTTP-tunnel handshakes repeated because of the GET/POST registration race.
 	TunnelRetries int `json:"http_tunnel_handshake_retries"`
 }
@@ -313,6 +316,10 @@ type world struct {
 	step    int
 
 	tap *collector
+
+	pubOK     int64 // packets the publisher's WritePacketRTP accepted
+	relayed   atomic.Int64
+	relayNote chan struct{}
 
 	fails  []Fail
 	res    Result
@@ -527,6 +534,22 @@ func newWorld(cs Case) (*world, error) {
 			w.pub = nil
 			return w, fmt.Errorf("publisher: %w", err)
 		}
+		// The relay itself is sysx's (ANNOUNCE created App.Published); forwarding is moved from the handler's Relay
+		// branch into its OnRTP hook - same call, same goroutine - so that the harness can see when a packet of the
+		// publisher has been handed to the stream: reader events are issued only after everything written so far
+		// has reached ServerStream.WritePacketRTP (the history then has a defined order also in this direction).
+		w.relayNote = make(chan struct{}, 1)
+		w.app.OnRTP = func(_ *gortsplib.ServerSession, m *description.Media, _ format.Format, p *rtp.Packet) {
+			if st := w.app.Published; st != nil {
+				st.WritePacketRTP(m, p) //nolint:errcheck
+			}
+			w.relayed.Add(1)
+			select {
+			case w.relayNote <- struct{}{}:
+			default:
+			}
+		}
+		w.app.Relay = false
 	} else {
 		w.sdesc = desc
 	}
@@ -748,6 +771,8 @@ func (w *world) write(l Letter, sentinel bool) *wrec {
 	if err != nil {
 		rec.Err = err.Error()
 		w.res.WriteErrs++
+	} else if w.cfg.Dir == dirRelay {
+		w.pubOK++
 	}
 	w.written = append(w.written, rec)
 	if rec.Err == "" {
@@ -824,9 +849,27 @@ func (w *world) sessionClosed(ss *gortsplib.ServerSession) bool {
 	return false
 }
 
+// syncPublisher waits until the server has handed every packet the publisher wrote so far to the stream.
+func (w *world) syncPublisher() {
+	if w.cfg.Dir != dirRelay || w.relayNote == nil {
+		return
+	}
+	deadline := time.NewTimer(sysx.HangLimit)
+	defer deadline.Stop()
+	for w.relayed.Load() < w.pubOK {
+		select {
+		case <-w.relayNote:
+		case <-deadline.C:
+			w.res.RelayTimeouts++
+			return
+		}
+	}
+}
+
 func (w *world) event(st Step) error {
 	r := w.reader(st.R)
 	w.res.Events++
+	w.syncPublisher()
 	switch st.Op {
 	case "j":
 		if r.state != "none" {
